@@ -183,7 +183,11 @@ fn run_case(case: &Value) -> Value {
                 #[allow(unreachable_patterns)]
                 _ => ("Unknown", None),
             };
-            res["err"] = json!({"variant": variant, "binding": binding, "display": display});
+            // rendering the error against the same source must not panic (C17)
+            let emit = catch_unwind(AssertUnwindSafe(|| e.emit_to_string(wgsl))).ok();
+            let emit_path = catch_unwind(AssertUnwindSafe(|| e.emit_to_string_with_path(wgsl, "dir/shader.wgsl"))).ok();
+            res["err"] = json!({"variant": variant, "binding": binding, "display": display,
+                                "emit": emit, "emit_path": emit_path});
         }
         Err(p) => {
             res["result"] = json!("panic");
